@@ -169,7 +169,9 @@ func (h *Hub) Run() {
 			case ClientSetOrientationMessageType:
 				orientation, err := update.ClientSetOrientation()
 				if err != nil {
-					panic(fmt.Errorf("unable to set orientation data: %w", err))
+					// a malformed frame of one client must not take the room down
+					log.Println(fmt.Errorf("ignoring orientation data of client %s: %w", clientID, err))
+					continue
 				}
 
 				h.state.Players[clientID].Representation = orientation.Objects
